@@ -86,6 +86,11 @@ static LineNumber write_define_hunk(LineWriter& output, const Hunk& hunk, const 
 
     for (const auto& patch_line : hunk.lines) {
         if (patch_line.operation == ' ') {
+            // Trailing context which was ignored due to fuzz may lie past the end of the file.
+            if (line_number >= lines.size()) {
+                ++line_number;
+                continue;
+            }
             const auto& line = lines.at(line_number);
             ++line_number;
             if (define_state != DefineState::Outside) {
@@ -132,7 +137,9 @@ static LineNumber write_hunk(LineWriter& output, const Hunk& hunk, const Locatio
 
     for (const auto& patch_line : hunk.lines) {
         if (patch_line.operation == ' ') {
-            output << lines.at(line_number);
+            // Trailing context which was ignored due to fuzz may lie past the end of the file.
+            if (line_number < lines.size())
+                output << lines.at(line_number);
             ++line_number;
         } else if (patch_line.operation == '+') {
             output << patch_line.line;
